@@ -436,12 +436,23 @@ func C16Load(seed uint64, goroutines, iters int, out string, concFirst bool) int
 	sh := c16BuildShared(seed)
 	res := &c16ChildResult{Goroutines: goroutines, Iters: iters, GOMAXPROCS: runtime.GOMAXPROCS(0), PerFn: map[string]int64{}}
 
-	ix0, iy0, iz0 := secp256k1.VIdentityRaw()
-	errs0 := secp256k1.VErrs()
+	// package-level state as seen through the API: what a fresh element looks like, and the identity of the error
+	// values returned for the four documented failure causes
+	globals := func() (mon.RawSnap, []error) {
+		return mon.Snap(secp256k1.NewElement()), []error{
+			secp256k1.NewScalar().Decode(nil),
+			secp256k1.NewScalar().Decode(make([]byte, 5)),
+			secp256k1.NewScalar().Decode(oracle.Bytes32(oracle.N)),
+			secp256k1.NewElement().Decode([]byte{9}),
+			secp256k1.NewScalar().CSelect(0, nil, nil),
+		}
+	}
+
+	id0, errs0 := globals()
 
 	var msgs0 []string
 	for _, e := range errs0 {
-		msgs0 = append(msgs0, e.Error())
+		msgs0 = append(msgs0, fmt.Sprint(e))
 	}
 
 	// snapshot of all shared memory (whole backing arrays via full capacity)
@@ -546,14 +557,14 @@ func C16Load(seed uint64, goroutines, iters int, out string, concFirst bool) int
 		res.Mismatches = append(res.Mismatches, "shared argument memory changed during the concurrent pass")
 	}
 
-	ix, iy, iz := secp256k1.VIdentityRaw()
-	if ix != ix0 || iy != iy0 || iz != iz0 {
-		res.GlobalChange = "package-level identity changed"
+	id1, errs1 := globals()
+	if id1 != id0 {
+		res.GlobalChange = "the package-level identity changed: a fresh NewElement() no longer has the coordinates it had before the workload"
 	}
 
-	for i, e := range secp256k1.VErrs() {
-		if e != errs0[i] || e.Error() != msgs0[i] {
-			res.GlobalChange = "a package-level error variable changed"
+	for i, e := range errs1 {
+		if e != errs0[i] || fmt.Sprint(e) != msgs0[i] {
+			res.GlobalChange = "a package-level error value changed"
 		}
 	}
 
